@@ -123,6 +123,7 @@ inductive Res where
   | badName                         -- strconv error from Filename_t.CreateTime
   | notFound                        -- cmsys.ErrRecordNotFound
   | noFile                          -- open(article) fails
+  | lockErr                         -- the article lock was not obtained in any of the 5 attempts of doAddRecommend
   | idxErr                          -- ptttype.ErrInvalidIdx from ModifyDirLite
   | osErr                           -- short read / seek error
   deriving Repr, DecidableEq
@@ -255,12 +256,20 @@ def phaseB (st : St) (t : Ticket) : St × Res :=
   | .error e => (st, e)
   | .ok st1 => phaseIndex st1 t
 
+/-- another process that holds the article's lock appends bytes (O_APPEND) to an existing article. -/
+def extAppend (st : St) (n bs : Bytes) : St :=
+  match fileGet st.files n with
+  | none => st
+  | some old => { st with files := fileSet st.files n (old ++ bs) }
+
 /-- one scheduling step of a system of commenters: a new commenter runs phase A (its ticket joins the
 pending ones), or a pending commenter performs its write, or its index update (and leaves). -/
 inductive Ev where
   | begin (cfg : Cfg) (q : Req)
   | write (i : Nat)
   | index (i : Nat)
+  | giveUp (i : Nat)                    -- the lock was never obtained: the call returns the lock error
+  | ext (name : Bytes) (bs : Bytes)     -- another holder of the article lock (another process) appends
   deriving Repr
 
 structure Sys where
@@ -284,8 +293,69 @@ def stepEv (find : Bytes → Nat → Bytes → Option Nat) (s : Sys) : Ev → Sy
     match s.pending[i]? with
     | none => s
     | some t => { st := (phaseIndex s.st t).1, pending := s.pending.eraseIdx i }
+  | .giveUp i => { s with pending := s.pending.eraseIdx i }
+  | .ext n bs => { s with st := extAppend s.st n bs }
 
 def runEv (find : Bytes → Nat → Bytes → Option Nat) (s : Sys) (evs : List Ev) : Sys := evs.foldl (stepEv find) s
+
+/-! ### the append itself: open, lock, write, unlock
+
+doAddRecommendSmartMerge: `OpenFile(O_APPEND|O_WRONLY)`, non-blocking `GoFlockExNb` (refused ⇒ the call fails,
+doAddRecommend sleeps DO_ADD_RECOMMEND_LOCK_WAIT and retries with a fresh open, at most 5 times), `Write`,
+`GoFunlock`.  With O_APPEND the position of a write is the end of the file AT THE TIME OF THE WRITE.  The
+write rule is a parameter so that the rule "position = end of file at the time of the open" (a descriptor
+without O_APPEND that seeks to the end before it has the lock) can be stated beside it. -/
+
+inductive Holder where
+  | free
+  | app (i : Nat)      -- appender i of this process
+  | ext                -- another process (mbbsd, another server)
+  deriving Repr, DecidableEq
+
+structure App where
+  line : Bytes
+  off : Nat            -- the end of the file when the appender opened it (O_APPEND never uses it)
+  deriving Repr, DecidableEq
+
+structure AState where
+  content : Bytes
+  holder : Holder
+  apps : List App
+  deriving Repr, DecidableEq
+
+inductive AEv where
+  | open (line : Bytes)
+  | lock (i : Nat)         -- non-blocking: succeeds only when the lock is free
+  | write (i : Nat)        -- only the holder writes (smart-merge branch)
+  | writeNoLock (i : Nat)  -- doAddRecommendNoSmartMerge: no lock at all
+  | unlock (i : Nat)
+  | extLock
+  | extAppend (bs : Bytes)
+  | extUnlock
+  deriving Repr
+
+/-- O_APPEND: the end of the file at the time of the write. -/
+def appendRule (content : Bytes) (a : App) : Bytes := content ++ a.line
+/-- a descriptor positioned at the end of the file at open time. -/
+def staleOffsetRule (content : Bytes) (a : App) : Bytes := writeAt content a.off a.line
+
+def stepA (rule : Bytes → App → Bytes) (s : AState) : AEv → AState
+  | .open line => { s with apps := s.apps ++ [{ line := line, off := s.content.length }] }
+  | .lock i => if s.holder = .free ∧ i < s.apps.length then { s with holder := .app i } else s
+  | .write i =>
+    match s.apps[i]? with
+    | some a => if s.holder = .app i then { s with content := rule s.content a } else s
+    | none => s
+  | .writeNoLock i =>
+    match s.apps[i]? with
+    | some a => { s with content := rule s.content a }
+    | none => s
+  | .unlock i => if s.holder = .app i then { s with holder := .free } else s
+  | .extLock => if s.holder = .free then { s with holder := .ext } else s
+  | .extAppend bs => if s.holder = .ext then { s with content := s.content ++ bs } else s
+  | .extUnlock => if s.holder = .ext then { s with holder := .free } else s
+
+def runA (rule : Bytes → App → Bytes) (s : AState) (evs : List AEv) : AState := evs.foldl (stepA rule) s
 
 /-- a history of requests on one board (the configuration may change between requests). -/
 def run (find : Bytes → Nat → Bytes → Option Nat) (st : St) : List (Cfg × Req) → St
